@@ -1,6 +1,7 @@
 import Mixin.Model.ConsensusChain
 import Mixin.Model.ConsensusChainCodes
 import Mixin.Facts.ExpectedC28
+import Mixin.Model.ConsensusEffectsCodes
 /-!
 # C28 — consensus operations form a serialized single-transaction chain
 
@@ -707,6 +708,151 @@ theorem persisted_branch_must_revalidate :
       ⟨201, 12, [8, 10]⟩ true 1 false true
       [⟨⟨8, 1, true, some 0, false, [7]⟩, .persisted none, false, false, false⟩,
        ⟨⟨10, 2, false, some 0, false, []⟩, .persisted none, false, false, false⟩] [] 0 []).decision = .accept := by
+  decide
+
+/-! ## class of a transaction vs. effects of its outputs
+
+C28 speaks about *operations*. The kernel rules above are decided on the class of a transaction
+(`TransactionType()`: first special output), storage applies membership / custodian state per
+output type (`writeUTXO`). The bridge is what `Validate` enforces about the outputs of the
+batchable classes (`shapeValid`, tied to the real `Validate` by the `consensusfx` stream). -/
+
+open Mixin.ConsensusEffects in
+theorem classOfOuts_script (outs : List OType) (b : Bool) (h : classOfOuts outs b = .script) :
+    ∀ o ∈ outs, o = .script := by
+  induction outs generalizing b with
+  | nil => simp
+  | cons o rest ih =>
+    intro x hx
+    cases o <;> simp [classOfOuts] at h
+    case script =>
+      rcases List.mem_cons.mp hx with rfl | hx
+      · rfl
+      · exact ih b h x hx
+    case other n =>
+      rcases List.mem_cons.mp hx with rfl | hx
+      · exfalso
+        have : ∀ l, classOfOuts l false ≠ .script := by
+          intro l; induction l with
+          | nil => simp [classOfOuts]
+          | cons a t iht => cases a <;> simp [classOfOuts, iht]
+        exact this rest h
+      · exact ih false h x hx
+
+open Mixin.ConsensusEffects in
+/-- **batchable_class_has_no_consensus_effects.** A transaction of a batchable class (script,
+    deposit, withdrawal submit, withdrawal claim) whose outputs have the shape its validator
+    enforces carries no output for which `writeUTXO` applies membership or custodian state. -/
+theorem batchable_class_has_no_consensus_effects (ins : List InKind) (outs : List OType)
+    (hb : (classOf ins outs).batchable = true)
+    (hv : shapeValid (classOf ins outs) outs = true) :
+    ∀ o ∈ outs, o.consensusEffect = false := by
+  intro o ho
+  cases hc : classOf ins outs with
+  | script =>
+    have hins : classOfIns ins = none := by
+      unfold classOf at hc
+      cases hi : classOfIns ins with
+      | none => rfl
+      | some c =>
+        simp only [hi] at hc; subst hc
+        exfalso
+        have : ∀ l, classOfIns l ≠ some .script := by
+          intro l; induction l with
+          | nil => simp [classOfIns]
+          | cons a t iht => cases a <;> simp [classOfIns, iht]
+        exact this ins hi
+    unfold classOf at hc
+    simp only [hins] at hc
+    rw [classOfOuts_script outs true hc o ho]; rfl
+  | deposit =>
+    simp only [hc, shapeValid, beq_iff_eq] at hv
+    subst hv; simp at ho; subst ho; rfl
+  | wSubmit =>
+    simp only [hc, shapeValid, Bool.and_eq_true, beq_iff_eq, List.all_eq_true] at hv
+    cases outs with
+    | nil => simp at ho
+    | cons a t =>
+      simp only [List.head?_cons, Option.some.injEq, List.tail_cons] at hv
+      rcases List.mem_cons.mp ho with rfl | h
+      · rw [hv.1]; rfl
+      · rw [hv.2 o h]; rfl
+  | wClaim =>
+    simp only [hc, shapeValid, Bool.and_eq_true, beq_iff_eq, List.all_eq_true] at hv
+    cases outs with
+    | nil => simp at ho
+    | cons a t =>
+      simp only [List.head?_cons, Option.some.injEq, List.tail_cons] at hv
+      rcases List.mem_cons.mp ho with rfl | h
+      · rw [hv.1]; rfl
+      · rw [hv.2 o h]; rfl
+  | mint | pledge | accept | remove | cancel | custUpdate | custSlash | unknown =>
+    all_goals (rw [hc] at hb; simp [Class.batchable] at hb)
+
+open Mixin.ConsensusEffects in
+/-- the numeric batchable table agrees with the class table -/
+theorem isBatchable_code (cls : Class) : isBatchable realCodes cls.code = cls.batchable := by
+  cases cls <;> decide
+
+open Mixin.ConsensusEffects in
+/-- **multi_tx_snapshot_has_no_consensus_effects.** In a snapshot with more than one
+    transaction that passes the kernel validator, a found transaction whose batchable class was
+    accepted by `Validate` (hypothesis `hvalid`: what the class validators enforce) has no
+    output that changes membership or custodian state. -/
+theorem multi_tx_snapshot_has_no_consensus_effects (e : Env) (st : Store) (s : Snap) (self : Bool)
+    (round : Nat) (found : List Tx) (fin : Bool) (hlen : s.txs.length > 1)
+    (hp : Passed (validateKernel realCodes e st s self round found fin))
+    (t : Tx) (ht : t ∈ found) (ins : List InKind) (outs : List OType)
+    (hclass : t.ttype = (classOf ins outs).code)
+    (hvalid : (classOf ins outs).batchable = true → shapeValid (classOf ins outs) outs = true) :
+    ∀ o ∈ outs, o.consensusEffect = false := by
+  have hb := multi_tx_only_batchable realCodes e st s self round found fin hlen hp t ht
+  have hb' : isBatchable realCodes t.ttype = true := (isBatchable_iff realCodes t.ttype).mpr hb
+  rw [hclass, isBatchable_code] at hb'
+  exact batchable_class_has_no_consensus_effects ins outs hb' (hvalid hb')
+
+open Mixin.ConsensusEffects in
+/-- … the same at `validateSnapshotTransaction`, for every body it found. -/
+theorem vst_multi_tx_has_no_consensus_effects (e : Env) (st : Store) (s : Snap) (self : Bool)
+    (round : Nat) (fin typeOk : Bool) (items : List Item) (hlen : s.txs.length > 1)
+    (h : (validateSnapshotTx realCodes e st s self round fin typeOk items).decision = .accept)
+    (it : Item) (hit : it ∈ items) (hloc : it.loc ≠ .absent) (ins : List InKind) (outs : List OType)
+    (hclass : it.tx.ttype = (classOf ins outs).code)
+    (hvalid : (classOf ins outs).batchable = true → shapeValid (classOf ins outs) outs = true) :
+    ∀ o ∈ outs, o.consensusEffect = false := by
+  have hb := vst_multi_tx_only_batchable realCodes e st s self round fin typeOk items hlen h it hit hloc
+  have hb' : isBatchable realCodes it.tx.ttype = true := (isBatchable_iff realCodes it.tx.ttype).mpr hb
+  rw [hclass, isBatchable_code] at hb'
+  exact batchable_class_has_no_consensus_effects ins outs hb' (hvalid hb')
+
+open Mixin.ConsensusEffects in
+/-- a consensus effect is only reachable through a consensus class (or a rejected shape):
+    contrapositive reading used by the harness oracle -/
+theorem consensus_effect_needs_consensus_class (ins : List InKind) (outs : List OType) (o : OType)
+    (ho : o ∈ outs) (he : o.consensusEffect = true)
+    (hv : (classOf ins outs).batchable = true → shapeValid (classOf ins outs) outs = true) :
+    (classOf ins outs).batchable = false := by
+  cases hb : (classOf ins outs).batchable with
+  | false => rfl
+  | true =>
+    have := batchable_class_has_no_consensus_effects ins outs hb (hv hb) o ho
+    rw [he] at this; exact absurd this (by simp)
+
+open Mixin.ConsensusEffects in
+/-- non-vacuity: the canonical shapes are valid … -/
+example : shapeValid (classOf [.utxo] [.wSubmit, .script, .script]) [.wSubmit, .script, .script] = true ∧
+    shapeValid (classOf [.deposit] [.script]) [.script] = true ∧
+    shapeValid (classOf [.utxo] [.wClaim, .script]) [.wClaim, .script] = true := by decide
+
+open Mixin.ConsensusEffects in
+/-- **weak_submit_check_admits_effect.** … and the shape condition is load-bearing: a check of
+    the second output only (instead of every further output) admits a withdrawal-submit class
+    transaction — batchable, no consensus reference — that pledges a node. -/
+theorem weak_submit_check_admits_effect :
+    let outs : List OType := [.wSubmit, .script, .pledge]
+    classOf [.utxo] outs = .wSubmit ∧ (classOf [.utxo] outs).batchable = true ∧
+      (outs.head? == some .wSubmit && (outs.drop 1).head?.all (· == .script)) = true ∧
+      shapeValid (classOf [.utxo] outs) outs = false ∧ outs.any (·.consensusEffect) = true := by
   decide
 
 end Mixin.C28
